@@ -1,7 +1,7 @@
-import Qryn.Read.Pipeline
+import Qryn.ReadSide.Pipeline
 /-! Lemmas for the pipeline model: the measure decreases with every move, the invariant is kept,
     a non-final state of a draining pipeline always has a move. -/
-namespace Qryn.Read.Pipe
+namespace Qryn.ReadSide.Pipe
 
 theorem Item.size_pos (it : Item) : 0 < it.size := by
   cases it; simp [Item.size]; omega
@@ -516,4 +516,4 @@ theorem reaches_final (S : Sys) (hI : Inv S) : ∃ S', Run S S' ∧ Final S' := 
       obtain ⟨S2, hr, hf⟩ := ih S1.measure (by omega) S1 (step_inv hI hs) rfl
       exact ⟨S2, Run.step hs hr, hf⟩
 
-end Qryn.Read.Pipe
+end Qryn.ReadSide.Pipe
